@@ -118,9 +118,10 @@ pub fn history(cx: &mut Ctx, rng: &mut Rng, max_steps: usize) {
                 1 => "despite".into(),
                 _ => "proceed".into(),
             },
-            "sendRequest" => match rng.below(8) {
+            "sendRequest" => match rng.below(9) {
                 0 => "canproceed".into(),
                 1 | 2 => "proceed".into(),
+                8 => if rng.chance(1, 3) { "proceed!".into() } else { "proceed".into() },
                 _ => format!("write {}", rng.pick(&[0usize, 5, 17, 18, 19, 30, 40, 64, 200, 1000])),
             },
             "await100" => match rng.below(6) {
@@ -132,9 +133,10 @@ pub fn history(cx: &mut Ctx, rng: &mut Rng, max_steps: usize) {
                     format!("read100 {}", hx(w))
                 }
             },
-            "sendBody" => match rng.below(12) {
+            "sendBody" => match rng.below(13) {
                 0 => "canproceed".into(),
                 1 | 2 => "proceed".into(),
+                12 => if rng.chance(1, 3) { "proceed!".into() } else { "proceed".into() },
                 3 => format!("maxin {}", rng.below(30000)),
                 4 => "chunked?".into(),
                 5 => format!("direct {}", rng.below(8)),
@@ -154,9 +156,10 @@ pub fn history(cx: &mut Ctx, rng: &mut Rng, max_steps: usize) {
                     format!("resp {}", hx(&stream[soff..soff + n]))
                 }
             },
-            "recvBody" => match rng.below(12) {
+            "recvBody" => match rng.below(13) {
                 0 => "canproceed".into(),
                 1 => "proceed".into(),
+                12 => if rng.chance(1, 4) { "proceed!".into() } else { "proceed".into() },
                 2 => "boundary".into(),
                 3 => "mode".into(),
                 4 => format!("stopb {}", rng.below(2)),
@@ -214,14 +217,298 @@ pub fn random_histories(cx: &mut Ctx, n: usize) {
 }
 
 pub fn c09(cx: &mut Ctx) {
-    let n = if cx.thorough { 60000 } else { 6000 };
+    // exhaustive short histories over a small menu: every op of every state, incl. premature advance
+    let reqs = ["GET HTTP/1.1 http://a.test/ 0", "POST HTTP/1.1 http://a.test/ 1 content-length 33",
+                "PUT HTTP/1.1 http://a.test/ 1 expect 3130302d636f6e74696e7565", "HEAD HTTP/1.0 http://a.test/ 0",
+                "POST HTTP/1.0 http://a.test/ 0", "DELETE HTTP/1.1 http://a.test/ 1 expect 3130302d636f6e74696e7565"];
+    let streams: [&[u8]; 6] = [b"HTTP/1.1 200 OK\r\nContent-Length: 3\r\n\r\nabcHTTP/1.1", b"HTTP/1.1 100 Continue\r\n\r\nHTTP/1.1 302 F\r\nLocation: /n\r\nTransfer-Encoding: chunked\r\n\r\n1\r\nx\r\n0\r\n\r\n",
+        b"HTTP/1.1 403 Forbidden\r\n\r\n", b"HTTP/1.0 200 OK\r\n\r\nclose delimited", b"HTTP/1.1 301 M\r\nContent-Length: 0\r\n\r\n", b"HTTP/1.1 417 E\r\nX: y\r\nContent-Length: 0\r\n\r\n"];
+    let menu: Vec<&str> = vec!["proceed", "proceed!", "canproceed", "write 1000", "write 9", "despite", "bwrite 616263 100", "bwrite - 100", "direct 3", "keep100", "READ", "follow never", "close?", "status"];
+    let depth = if cx.thorough { 5 } else { 4 };
+    for (ri, req) in reqs.iter().enumerate() {
+        for (si, stream) in streams.iter().enumerate() {
+            if !cx.thorough && (ri + si) % 2 == 1 { continue; }
+            // enumerate op sequences of length `depth` after a fixed warm-up that reaches a random depth
+            let total = menu.len().pow(2);
+            for code in 0..total {
+                cx.case("ex");
+                if cx.rec.new_flow(req) != "ok" { continue; }
+                let mut soff = 0usize;
+                let mut ops: Vec<usize> = vec![code % menu.len(), (code / menu.len()) % menu.len()];
+                // the canonical path interleaved with the two enumerated ops at positions chosen by the indices
+                let canon = ["proceed", "write 1000", "proceed", "READ", "proceed", "bwrite 616263 100", "bwrite - 100", "proceed", "READ", "proceed", "READ", "proceed", "close?"];
+                let pos_a = (ri * 3 + si) % 6;
+                let pos_b = pos_a + 1 + (code % 5);
+                let mut k = 0;
+                for step in 0..(canon.len() + 2) {
+                    let op = if step == pos_a || step == pos_b { let o = menu[ops.remove(0)]; o } else { let o = canon[k.min(canon.len() - 1)]; k += 1; o };
+                    let _ = depth;
+                    let st = cx.rec.state();
+                    if st == "gone" { break; }
+                    let text = if op == "READ" {
+                        let w = &stream[soff.min(stream.len())..];
+                        match st { "await100" => format!("read100 {}", hx(w)), "recvResponse" => format!("resp {}", hx(w)), "recvBody" => format!("bread {} 100", hx(w)), _ => continue }
+                    } else { op.to_string() };
+                    let res = cx.op(&text);
+                    let p: Vec<&str> = res.split(' ').collect();
+                    if text.starts_with("read100") && p[0] == "count" { soff += p[1].parse::<usize>().unwrap(); }
+                    if text.starts_with("resp") && p[0] == "resp" { soff += p[1].parse::<usize>().unwrap(); }
+                    if text.starts_with("bread") && p[0] == "bytes" { soff += p[1].parse::<usize>().unwrap(); }
+                }
+            }
+        }
+    }
+    let n = if cx.thorough { 60000 } else { 5000 };
     random_histories(cx, n);
 }
+
+/// drive a request/response exchange given as explicit pieces; asks the verdict in redirect and cleanup
+fn c10_exchange(cx: &mut Ctx, req: &str, scenario: usize, stream: &[u8]) {
+    if cx.rec.new_flow(req) != "ok" { return; }
+    cx.op("proceed");
+    cx.op("write 4096");
+    cx.op("proceed");
+    let mut soff = 0usize;
+    if cx.rec.state() == "await100" {
+        match scenario {
+            2 | 3 | 4 => {
+                // the server answers while we wait: a 100, or the final response
+                let res = cx.op(&format!("read100 {}", hx(stream)));
+                if let Some(n) = res.strip_prefix("count ") { soff = n.parse().unwrap(); }
+            }
+            _ => {}
+        }
+        cx.op("proceed");
+    }
+    if cx.rec.state() == "sendBody" {
+        if cx.op("chunked?") == "bool true" { cx.op("bwrite 6162 100"); cx.op("bwrite - 100"); } else { cx.op("bwrite 6162636465 100"); }
+        cx.op("proceed");
+    }
+    for _ in 0..6 {
+        match cx.rec.state() {
+            "recvResponse" => {
+                let res = cx.op(&format!("resp {}", hx(&stream[soff.min(stream.len())..])));
+                let p: Vec<&str> = res.split(' ').collect();
+                if p[0] != "resp" { return; }
+                soff += p[1].parse::<usize>().unwrap();
+                if p[2] != "none" { cx.op("proceed"); } else if p[1] == "0" { return; }
+            }
+            "recvBody" => {
+                cx.op("mode");
+                let res = cx.op(&format!("bread {} 1000", hx(&stream[soff.min(stream.len())..])));
+                let p: Vec<&str> = res.split(' ').collect();
+                if p[0] == "bytes" { soff += p[1].parse::<usize>().unwrap(); }
+                cx.op("proceed");
+            }
+            "redirect" => { cx.op("close?"); cx.op("reason"); cx.op("proceed"); }
+            "cleanup" => { cx.op("close?"); cx.op("reason"); return; }
+            _ => return,
+        }
+    }
+}
+
 pub fn c10(cx: &mut Ctx) {
-    let n = if cx.thorough { 20000 } else { 2000 };
-    random_histories(cx, n);
+    let conn_req: [&[(&str, &[u8])]; 4] = [&[], &[("connection", b"close")], &[("connection", b"keep-alive")], &[("connection", b"keep-alive"), ("connection", b"close")]];
+    let conn_resp: [&str; 4] = ["", "Connection: close\r\n", "Connection: keep-alive\r\n", "Connection: keep-alive\r\nconnection: close\r\n"];
+    let statuses: [(u16, &str); 3] = [(200, ""), (302, "Location: /next\r\n"), (204, "")];
+    let framings: [(&str, &str); 4] = [("Content-Length: 5\r\n", "hello"), ("Transfer-Encoding: chunked\r\n", "5\r\nhello\r\n0\r\n\r\n"), ("", "until close"), ("Content-Length: 0\r\n", "")];
+    for reqv in ["HTTP/1.0", "HTTP/1.1"] {
+        for creq in conn_req.iter() {
+            for scenario in 0..6usize {
+                // 0: GET; 1: POST with body; 2: POST expect -> 100; 3: expect -> refused, no fields; 4: expect -> refused with fields; 5: expect, give up
+                for respv in [0u8, 1] {
+                    for (status, loc) in statuses {
+                        for (fh, fb) in framings {
+                            for cresp in conn_resp {
+                                cx.case("x");
+                                let mut hs: Vec<(&str, &[u8])> = creq.to_vec();
+                                let method = if scenario == 0 { "GET" } else { "POST" };
+                                if scenario >= 1 { hs.push(("content-length", b"5")); }
+                                if scenario >= 2 { hs.push(("expect", b"100-continue")); }
+                                let req = format!("{} {} http://a.test/p {}", method, reqv, super::hdrs(&hs));
+                                let mut stream = Vec::new();
+                                if scenario == 2 { stream.extend_from_slice(b"HTTP/1.1 100 Continue\r\n\r\n"); }
+                                let body_allowed = status != 204;
+                                let head = if scenario == 3 {
+                                    // refused without any field: bare status line, body can only be close-delimited
+                                    format!("HTTP/1.{} {} R\r\n\r\n", respv, if status == 204 { 403 } else { status })
+                                } else {
+                                    format!("HTTP/1.{} {} R\r\n{}{}{}\r\n", respv, status, loc, if body_allowed { fh } else { "" }, cresp)
+                                };
+                                stream.extend_from_slice(head.as_bytes());
+                                if body_allowed && scenario != 3 { stream.extend_from_slice(fb.as_bytes()); }
+                                c10_exchange(cx, &req, scenario, &stream);
+                            }
+                        }
+                    }
+                }
+            }
+        }
+    }
 }
+
+fn alpha_strings(alpha: &[u8], maxlen: usize, mut f: impl FnMut(&[u8])) {
+    let mut cur: Vec<usize> = vec![];
+    loop {
+        let s: Vec<u8> = cur.iter().map(|&i| alpha[i]).collect();
+        f(&s);
+        let mut k = cur.len();
+        loop {
+            if k == 0 { cur = vec![0; cur.len() + 1]; break; }
+            k -= 1;
+            if cur[k] + 1 < alpha.len() { cur[k] += 1; for j in k + 1..cur.len() { cur[j] = 0; } break; }
+        }
+        if cur.len() > maxlen { break; }
+    }
+}
+
 pub fn c12(cx: &mut Ctx) {
-    let n = if cx.thorough { 20000 } else { 2000 };
-    random_histories(cx, n);
+    let alpha: &[u8] = b"HTP/1.02 :;aF\r\n\t+-\x00\x7f\x80\xc2\xa0";
+    let maxlen = if cx.thorough { 3 } else { 2 };
+    let mut strings: Vec<Vec<u8>> = vec![];
+    alpha_strings(alpha, maxlen, |s| strings.push(s.to_vec()));
+    // one length more over the bytes the scanners branch on most
+    alpha_strings(b"H1 :\r\n0a;", maxlen + 1, |s| if s.len() == maxlen + 1 { strings.push(s.to_vec()) });
+    // (1) head-facing states: await100 and recvResponse, short strings as the whole input and after valid prefixes
+    let prefixes: [&[u8]; 5] = [b"", b"HTTP/1.1 ", b"HTTP/1.1 200 OK\r\n", b"HTTP/1.1 200 OK\r\nA: b\r\n", b"HTTP/1.1 100 Continue\r\n"];
+    for (pi, pre) in prefixes.iter().enumerate() {
+        for chunk in strings.chunks(400) {
+            cx.case("h100");
+            cx.rec.new_flow("POST HTTP/1.1 http://a.test/ 1 expect 3130302d636f6e74696e7565");
+            cx.op("proceed"); cx.op("write 1000"); cx.op("proceed");
+            for s in chunk {
+                if cx.rec.state() != "await100" {
+                    cx.rec.new_flow("POST HTTP/1.1 http://a.test/ 1 expect 3130302d636f6e74696e7565");
+                    cx.op("proceed"); cx.op("write 1000"); cx.op("proceed");
+                }
+                let mut w = pre.to_vec(); w.extend_from_slice(s);
+                cx.op(&format!("read100 {}", hx(&w)));
+                if cx.op("keep100") == "bool false" {
+                    // a verdict was reached: the flow must remain usable
+                    cx.op("proceed");
+                    if cx.rec.state() == "recvResponse" { cx.op(&format!("resp {}", hx(&w))); cx.op("canproceed"); }
+                    cx.rec.new_flow("POST HTTP/1.1 http://a.test/ 1 expect 3130302d636f6e74696e7565");
+                    cx.op("proceed"); cx.op("write 1000"); cx.op("proceed");
+                }
+            }
+            let _ = pi;
+        }
+        for chunk in strings.chunks(400) {
+            cx.case("hresp");
+            super::to_recv_response(cx, "GET", "HTTP/1.1");
+            for s in chunk {
+                if cx.rec.state() != "recvResponse" { super::to_recv_response(cx, "GET", "HTTP/1.1"); }
+                let mut w = pre.to_vec(); w.extend_from_slice(s);
+                let res = cx.op(&format!("resp {}", hx(&w)));
+                if res.starts_with("resp") && !res.ends_with("none") {
+                    cx.op("canproceed");
+                    cx.op("proceed");
+                    if cx.rec.state() == "recvBody" { cx.op(&format!("bread {} 10", hx(s))); cx.op("proceed"); }
+                    super::to_recv_response(cx, "GET", "HTTP/1.1");
+                }
+            }
+        }
+    }
+    // (2) body-facing states: chunked / length / close, every short string as the window, then follow-up reads
+    let heads: [&[u8]; 3] = [b"HTTP/1.1 200 OK\r\nTransfer-Encoding: chunked\r\n\r\n", b"HTTP/1.1 200 OK\r\nContent-Length: 3\r\n\r\n", b"HTTP/1.0 200 OK\r\n\r\n"];
+    let bpre: [&[u8]; 5] = [b"", b"3\r\n", b"3\r\nabc", b"0\r\n", b"0\r\nT: v\r\n"];
+    for head in heads {
+        for pre in bpre {
+            for chunk in strings.chunks(60) {
+                cx.case("body");
+                for s in chunk {
+                    if !super::bodyr::to_recv_body(cx, "GET", head) { continue; }
+                    let mut w = pre.to_vec(); w.extend_from_slice(s);
+                    let cap = 1 + (s.len() % 3) * 4;
+                    let mut off = 0;
+                    for _ in 0..4 {
+                        let res = cx.op(&format!("bread {} {}", hx(&w[off..]), cap));
+                        let p: Vec<&str> = res.split(' ').collect();
+                        if p[0] != "bytes" { break; }
+                        let i: usize = p[1].parse().unwrap();
+                        off += i;
+                        if i == 0 && p[2] == "-" { break; }
+                    }
+                    cx.op("canproceed");
+                    cx.op("proceed");
+                }
+            }
+        }
+    }
+    // (3) grammar-aware mutations of valid exchanges under random schedules
+    let n = if cx.thorough { 20000 } else { 2500 };
+    for _ in 0..n {
+        let mut r = cx.case("mut");
+        let req = gen_request(&mut r);
+        if cx.rec.new_flow(&req) != "ok" { continue; }
+        let mut stream = gen_stream(&mut r);
+        for _ in 0..r.range(1, 3) {
+            if stream.is_empty() { break; }
+            let pos = r.below(stream.len());
+            match r.below(8) {
+                0 => { stream[pos] ^= 1 << r.below(8); }
+                1 => { stream.remove(pos); }
+                2 => { let b = stream[pos]; stream.insert(pos, b); }
+                3 => { let k = r.below(stream.len()); let piece: Vec<u8> = stream[k..(k + 8).min(stream.len())].to_vec(); for (j, b) in piece.iter().enumerate() { stream.insert(pos + j, *b); } }
+                4 => { for (j, b) in b"99999999999999999999999".iter().enumerate() { stream.insert(pos + j, *b); } }
+                5 => { stream.insert(pos, *r.pick(&[b'\r', b'\n'])); }
+                6 => { let extra: Vec<u8> = (0..130).flat_map(|k| format!("x-{}: v\r\n", k).into_bytes()).collect(); let at = stream.windows(2).position(|w| w == b"\r\n").map(|p| p + 2).unwrap_or(0); for (j, b) in extra.iter().enumerate() { stream.insert(at + j, *b); } }
+                _ => { stream.truncate(pos); }
+            }
+        }
+        drive_with_stream(cx, &mut r, &stream);
+    }
+    // (4) the five close conditions at once, and repeated verdict calls (D5)
+    cx.case("five");
+    cx.rec.new_flow("POST HTTP/1.0 http://a.test/ 3 connection 636c6f7365 expect 3130302d636f6e74696e7565 content-length 35");
+    cx.op("proceed"); cx.op("write 1000"); cx.op("proceed");
+    let st: &[u8] = b"HTTP/1.0 403 No\r\nConnection: close\r\n\r\nbody";
+    for _ in 0..3 { cx.op(&format!("read100 {}", hx(st))); }
+    cx.op("proceed");
+    for _ in 0..6 { cx.op(&format!("resp {}", hx(st))); }
+    cx.op("proceed"); cx.op("mode"); cx.op(&format!("bread {} 100", hx(b"body"))); cx.op("proceed"); cx.op("close?"); cx.op("reason");
+    // (5) a header name longer than 65535 bytes (D9)
+    cx.case("longname");
+    super::to_recv_response(cx, "GET", "HTTP/1.1");
+    let mut big = b"HTTP/1.1 200 OK\r\n".to_vec();
+    big.extend(std::iter::repeat(b'a').take(65536));
+    big.extend_from_slice(b": v\r\n\r\n");
+    cx.op(&format!("resp {}", hx(&big)));
+    if cx.thorough {
+        // (the model's scanner appends to its accumulators, so each of these costs seconds to replay)
+        cx.op(&format!("parse-resp 4 {}", hx(&big)));
+        cx.op(&format!("parse-partial 4 {}", hx(&big)));
+        let mut bigreq = b"GET / HTTP/1.1\r\n".to_vec();
+        bigreq.extend(std::iter::repeat(b'a').take(65536));
+        bigreq.extend_from_slice(b": v\r\n\r\n");
+        cx.op(&format!("parse-req 4 {}", hx(&bigreq)));
+    }
+}
+
+/// drive whatever state the flow is in with the given server stream, random windows and buffers
+fn drive_with_stream(cx: &mut Ctx, rng: &mut Rng, stream: &[u8]) {
+    let mut soff = 0usize;
+    for _ in 0..80 {
+        let st = cx.rec.state();
+        let rem = stream.len() - soff.min(stream.len());
+        let n = if rng.chance(1, 2) { rem } else { rng.below(rem + 1) };
+        let w = &stream[soff.min(stream.len())..soff.min(stream.len()) + n];
+        let op: String = match st {
+            "prepare" => "proceed".into(),
+            "sendRequest" => if rng.chance(1, 2) { "write 2000".into() } else { "proceed".into() },
+            "await100" => if rng.chance(1, 3) { "proceed".into() } else { format!("read100 {}", hx(w)) },
+            "sendBody" => match rng.below(4) { 0 => "bwrite - 50".into(), 1 => "proceed".into(), 2 => "direct 5".into(), _ => "bwrite 6162636465 50".into() },
+            "recvResponse" => if rng.chance(1, 4) { "proceed".into() } else { format!("resp {}", hx(w)) },
+            "recvBody" => match rng.below(5) { 0 => "proceed".into(), 1 => format!("stopb {}", rng.below(2)), _ => format!("bread {} {}", hx(w), rng.pick(&[0usize, 1, 3, 100])) },
+            "redirect" => match rng.below(3) { 0 => "proceed".into(), 1 => "close?".into(), _ => format!("follow {}", rng.pick(&["never", "samehost"])) },
+            "cleanup" => { cx.op("close?"); break; }
+            _ => break,
+        };
+        let res = cx.op(&op);
+        let p: Vec<&str> = res.split(' ').collect();
+        if op.starts_with("read100") && p[0] == "count" { soff += p[1].parse::<usize>().unwrap(); }
+        if op.starts_with("resp") && p[0] == "resp" { soff += p[1].parse::<usize>().unwrap(); }
+        if op.starts_with("bread") && p[0] == "bytes" { soff += p[1].parse::<usize>().unwrap(); }
+        if op.starts_with("follow") && p[0] == "flow" { soff = 0; }
+    }
 }
